@@ -143,6 +143,26 @@ def parse_adapter(path):
         re.search(r"if\s+claimedFrom\s*!=\s*from\s*\{[^{}]*?\breturn\b[^{}]*\}\s*p\.in\s*<-\s*msg", on))
     if not re.search(r"p\.in\s*<-\s*msg", on):
         raise Shape("OnMsg: no `p.in <- msg`")
+    # ---- slot lookup: locatePartyIndex = index of the party with the EQUAL key, -1 otherwise; used by OnMsg for the PartyID
+    #      built from the transport sender; Init sorts the identifiers (tss.SortPartyIDs), so slots are positions in key order
+    try:
+        lp = re.sub(r"\s+", " ", func_body(src, r"func \(p \*party\) locatePartyIndex\(id \*tss\.PartyID\) int\s*\{")).strip()
+    except (Shape, ValueError):
+        lp = ""
+    scan = bool(re.fullmatch(r"for (\w+), (\w+) := range p\.params\.Parties\(\)\.IDs\(\) \{ "
+                             r"if bytes\.Equal\((?:\2\.Key, id\.Key|id\.Key, \2\.Key)\) \{ return \1 \} \} return -1", lp))
+    uses = bool(re.search(r"id\s*:=\s*tss\.NewPartyID\(fmt\.Sprintf\(\"%d\",\s*from\),\s*\"\",\s*big\.NewInt\(int64\(from\)\)\)\s*"
+                          r"id\.Index\s*=\s*p\.locatePartyIndex\(id\)\s*"
+                          r"msg,\s*err\s*:=\s*tss\.ParseWireMessage\(msgBytes,\s*id,\s*broadcast\)", on))
+    try:
+        pn = func_body(src, r"func partyIDsFromNumbers\(parties \[\]uint16\) \[\]\*tss\.PartyID\s*\{")
+        ini = func_body(src, r"func \(p \*party\) Init\(parties \[\]uint16, threshold int, sendMsg func\(msg \[\]byte, isBroadcast bool, to uint16\)\)\s*\{")
+    except (Shape, ValueError):
+        pn, ini = "", ""
+    sorts = bool(re.search(r"return\s+tss\.SortPartyIDs\(partyIDs\)", pn) and
+                 re.search(r"partyIDs\s*:=\s*partyIDsFromNumbers\(parties\)\s*ctx\s*:=\s*tss\.NewPeerContext\(partyIDs\)", ini))
+    a["locate_scan"], a["locate_used"], a["locate_sorted"] = scan, uses, sorts
+    a["locate_exact"] = scan and uses and sorts
     # ---- Sign: what is signed, what the result is compared with
     sg = func_body(src, r"func \(p \*party\) Sign\(ctx context\.Context, msgHash \[\]byte\) \(\[\]byte, error\)\s*\{")
     m = re.search(r"msgToSign\s*:=\s*(hashToInt\(msgHash,\s*elliptic\.P256\(\)\)|big\.NewInt\(0\)\.SetBytes\(msgHash\))", sg)
@@ -179,7 +199,7 @@ def coq_bool(b):
 
 EMPTY = dict(rounds=[], broadcast=[], round_threshold=0, round_offset=0, onmsg_checks_key=False, key_limit=0,
              onmsg_checks_sender=False, sign_compares=False, sign_target_full=False, sign_full_len=False, sign_hash_to_int=False,
-             hash_to_int_std=False, in_capacity=0)
+             hash_to_int_std=False, in_capacity=0, locate_exact=False)
 
 
 def emit_adapters(ads, error=None):
@@ -208,6 +228,9 @@ def emit_adapters(ads, error=None):
         L.append("Definition %s_onmsg_checks_key : bool := %s." % (name, coq_bool(a["onmsg_checks_key"])))
         L.append("Definition %s_key_limit : N := %d." % (name, a["key_limit"]))
         L.append("Definition %s_onmsg_checks_sender : bool := %s." % (name, coq_bool(a["onmsg_checks_sender"])))
+        L.append("(* slot lookup: locatePartyIndex is the linear scan returning the index of the party with the equal key (-1 otherwise),")
+        L.append("   OnMsg files the message under locatePartyIndex(PartyID of the transport sender), Init sorts the identifiers *)")
+        L.append("Definition %s_locate_exact : bool := %s." % (name, coq_bool(a["locate_exact"])))
         L.append("(* Sign: is sigOut.M compared at all; with msgHash itself (true) or with msgToSign.Bytes() (false); is len(msgHash)")
         L.append("   handed to the library as fullBytesLen; is the digest converted by the standard-library hashToInt *)")
         L.append("Definition %s_sign_compares : bool := %s." % (name, coq_bool(a["sign_compares"])))
